@@ -161,6 +161,12 @@ class MergeIndexMap(Contract):
         n = cx.int('nin')
         cx.assume(n >= 0)
         ms = MergeSets(cx)
+        from pyvc import nparr
+        if nparr.BOUND is not None:
+            # counterexample search only: index quantifiers are expanded over 0..BOUND, so every index domain must fit
+            # (otherwise the invariants are assumed on a part of the arrays only and the search reports spurious models)
+            cx.assume(z3.And(n <= nparr.BOUND, ms.K <= nparr.BOUND))
+            cx.assume(qforall(1, lambda k: ms.LEN(k) <= nparr.BOUND))
         cx.assume(qforall(1, lambda k: z3.Implies(z3.And(0 <= k, k < ms.K), ms.LEN(k) >= 1)))
         cx.assume(qforall(2, lambda k, a: z3.Implies(z3.And(0 <= k, k < ms.K, 0 <= a, a < ms.LEN(k)), z3.And(0 <= ms.MS(k, a), ms.MS(k, a) < n))))
         # an arbitrary equivalence relation containing every merge pair
@@ -205,13 +211,39 @@ class MergeIndexMap(Contract):
 
 
 def contracts():
-    return [MergeIndexMap(True), MergeIndexMap(False)]
+    from contracts import C12_support, C12_bases
+    return [MergeIndexMap(True), MergeIndexMap(False)] + C12_support.contracts() + C12_bases.contracts()
 
+
+from contracts.C12_support import PARKED  # noqa: E402  (documented _int_or_vec clause that fails on the unchanged tree: candidate defect)
 
 TRUSTED = ['pyvc symbolic executor and its Python model (DESIGN 2.3), loop rule (init / preserve / use, havoc of assigned names)',
            'numpy externals: arange, integer-array store (Skolem witness form); min() of a list as an attained lower bound',
-           'ghost update of rep at the union step is specification text, not code']
-ASSUMPTIONS = ['every index in a merge set lies in [0, nin) and every merge set is non-empty (documented)', 'numpy int64 as mathematical integers']
-NOT_COVERED = ['every concrete basis class (dof lists, coefficient tables), partition of unity, continuity across interfaces: numeric, outside',
-               'Basis._computed_support inverse relation (DESIGN 4.12; not built)',
-               'surjectivity of the condensed labels onto range(count)']
+           'ghost update of rep at the union step is specification text, not code',
+           'pyvc/nested.py: `[[] for i in range(n)]` is n distinct empty lists; x[d].append(v) functional update; ghost POS(d, v) = position of the last append of v to x[d] (specification only)',
+           'pyvc/npsets.py (cross-checked in native/axioms.py): numpy.unique, numpy.union1d, mask.nonzero()[0] as strictly increasing arrays with exactly the stated element sets (Skolem witnesses); '
+           'functools.reduce(numpy.union1d, items) returns items[0] ITSELF for a single item, else the strictly increasing union',
+           'types.frozenarray(list of ints / array) is that array; tuple(generator over the list of lists) is the mapped sequence; numpy.array([]) is the empty array, numpy.array([i]) the 1-array',
+           'contracts/evalsem.py (cross-checked in native/axioms.py:evaluable_nodes): denotations of evaluable.constant/Elemwise/Range/get/Take/take/Less/InsertAxis/Find/divmod/RavelIndex/Ravel '
+           'and +,*,% on integer nodes; insertaxis/PolyMul/ravel on coefficient tables only track WHICH stored rows are combined (row identities), not polynomial values',
+           'evaluable.compile/eval deliver the denotation of the node DAG (that is C02, not checked here): get_dofs(e)/get_coefficients(e) = f_dofs_coeffs(index) evaluated at index = e',
+           'L-DIVMOD ground instances (divmod(q*n + r, n) = (q, r), 0 <= r < n) for the row-major element digits of StructuredBasis; L-MONO for the DiscontBasis offsets',
+           'numeric.normdim is executed from its real source inside _int_or_vec / DiscontBasis.get_support; numeric.isintarray/isboolarray are dtype tests']
+ASSUMPTIONS = ['every index in a merge set lies in [0, nin) and every merge set is non-empty (documented)', 'numpy int64 as mathematical integers',
+               '_computed_support: get_dofs(e) is a 1-D int array with entries in [0, ndofs) for 0 <= e < nelems (class invariant of Basis, NOT checked by any constructor; repetitions and any order allowed)',
+               '_int_or_vec: nargs >= 0; f is a total function from indices to 1-D int arrays; "+sorted-f": f returns strictly increasing arrays (true for get_support: proved for _computed_support)',
+               'f_dofs_coeffs: 0 <= index < nelems (Basis.__init__ wraps the argument in InRange)',
+               'PlainBasis: len(_dofs) == len(_coeffs) and equally many rows per element (asserted by PlainBasis.__init__; the constructor itself is not under contract); dofs in range is NOT checked by the constructor',
+               'DiscontBasis: _offsets == cumsum([0] + rows per element), ndofs == _offsets[-1] (as computed by __init__ with numpy.cumsum; constructor not under contract)',
+               'MaskedBasis: _indices strictly increasing within [0, parent.ndofs) (checked by __init__, ValueError otherwise), _renumber == invmap(_indices, parent.ndofs, missing=ndofs) (numeric.invmap is under contract), parent dofs in range',
+               'PrunedBasis: _dofmap strictly increasing, contains every dof of every selected parent element, _renumber == invmap(_dofmap): follows from the _int_or_vec contract ONLY when transmap has at least '
+               'two distinct entries or the parent dofs are sorted and unique -- otherwise NOT established (candidate defect, notes/C12-basis.md)',
+               'StructuredBasis: transforms_shape[i] >= 1, dofs_shape[i] >= 1, _ndofs[i] >= 0, rows of _coeffs[i][e] == _ndofs[i][e]; the element index is given by its row-major digits',
+               'numeric.invmap: indices in [0, length) and pairwise distinct (documented precondition)']
+NOT_COVERED = ['partition of unity, continuity across interfaces, polynomial VALUES of coefficient tables (PolyMul etc. are tracked as row identities only): numeric, outside',
+               'surjectivity of the condensed labels onto range(count)',
+               'Basis.get_support one-line body (self._computed_support[dof]); get_ndofs/get_coefficients (normdim + compiled evaluable); __getitem__ dispatch',
+               'StructuredBasis.get_support (while loop over periodic images, searchsorted, concatenate, add.outer: needs n-d array semantics) -- NOT under contract; StructuredBasis beyond 3 axes',
+               'PrunedBasis.get_support (numeric.sorted_index), LegendreBasis, _DiscontinuousPartitionBasis; the constructors of Plain/Discont/Masked/Pruned/StructuredBasis (class invariants are ASSUMED as listed)',
+               'topology._basis_c0_structured / basis_std call of merge_index_map, element.get_edge_dofs, StructuredTopology._basis_spline dof numbering (periodic wrap-around): not reached in this round',
+               'int-array / bool-mask argument with ONE distinct entry to get_dofs: documented strict monotonicity fails (PARKED contracts, candidate defect)']
